@@ -12,3 +12,10 @@ pub fn checkpoint(v: &Value) -> Value {
     git_ai::commands::git_ai_handlers::handle_git_ai(&args);
     json!({"returned": true})
 }
+
+/// K3: {raw, cwd}: the VS Code hook path normaliser on the counterexample's text
+pub fn hook_path(v: &Value) -> Value {
+    let raw = String::from_utf8(crate::bytes_of(&v["raw"])).unwrap();
+    let p = git_ai::commands::checkpoint_agent::agent_presets::verif_hooks::copilot_normalize_hook_path(&raw, v["cwd"].as_str().unwrap());
+    json!({"path": p})
+}
